@@ -26,8 +26,19 @@ theorem javaErrorPattern_expected : Heph.Generated.javaErrorRegex
     = "([a-zA-Z0-9\\/_]+.java):(\\d+:[ ]+error:[ ]+.*)(.*?(?=\\n{1,}))" := by decide
 theorem javaErrorFlags_expected : Heph.Generated.javaErrorFlags = 32 := by decide
 
+/-- the claimed javac crash pattern is the REPAIRED one (a stack frame line must follow the line
+that names `java.lang`); on a tree that still has the pattern as found this obligation fails and
+the check reports the failing input `java:crash-regex-on-quoted-java.lang` -/
 theorem javaCrashPattern_expected : Heph.Generated.javaCrashRegex
-    = "(java\\.lang.*)\\n(.*)" := by decide
+    = "(java\\.lang.*)\\n([ \\t]+at .*)" := by decide
+/-- the pattern as found, kept for the counterexample section -/
+def javaCrashPattern_asis : String := "(java\\.lang.*)\\n(.*)"
+theorem javaCrashVariant_of_asis :
+    Heph.Diag.javaCrashVariantOf javaCrashPattern_asis = some .asis := by decide
+theorem javaCrashVariant_of_expected :
+    Heph.Diag.javaCrashVariantOf "(java\\.lang.*)\\n([ \\t]+at .*)" = some .framed := by decide
+/-- the scanner the driver runs is the one for the repaired pattern -/
+theorem javaCrashVariant_live : Heph.Diag.javaCrashVariant = .framed := by decide
 theorem javaCrashFlags_expected : Heph.Generated.javaCrashFlags = 32 := by decide
 
 theorem kotlinErrorPattern_expected : Heph.Generated.kotlinErrorRegex
@@ -127,6 +138,57 @@ theorem crash_iff (c : Compiler) (fs : List (List Char)) (is : List Item) (ot : 
     (analyze c fs (render c is ++ renderTrace ot)).crash = true ↔ ot ≠ none :=
   analyze_crash_iff c fs is ot h ht
 
+/-- The clause `WFItem .javac` asks of every line of an item for the repaired pattern: the line is
+not a frame line, i.e. does not start with one or more blanks/tabs followed by `at `. Nothing is
+asked about `java.lang`: messages and quoted source lines may contain it. -/
+theorem javac_clause_repaired (l : List Char) :
+    lineCrashV .framed .javac l = frameLine l := rfl
+
+/-- for the pattern as found the clause was: the line does not contain `java.lang` -/
+theorem javac_clause_asis (l : List Char) :
+    lineCrashV .asis .javac l = searchThenNl "java.lang".toList (l ++ ['\n']) := by
+  simp [lineCrashV, crashSearchV]
+
+/-- on the repaired tree `WFItem .javac` uses the repaired clause -/
+theorem javac_clause_live (l : List Char) : lineCrash .javac l = frameLine l := by
+  unfold lineCrash; rw [javaCrashVariant_live]; rfl
+
+/-- EXACT characterisation of the repaired javac crash test on newline-terminated lines (no
+well-formedness needed): it fires iff some line containing `java.lang` is directly followed by a
+frame line. `framePairs ls = false` is therefore the weakest hypothesis on a batch output. -/
+theorem javac_repaired_crash_exact (ls : List (List Char)) (h : ∀ l ∈ ls, '\n' ∉ l) :
+    crashSearchV .framed .javac (unlines ls) = framePairs ls :=
+  searchThenFrame_unlines ls h
+
+/-- sufficient, per line: no frame lines (the `WFItem` clause) … -/
+theorem javac_repaired_no_crash_of_no_frame (ls : List (List Char)) (h : ∀ l ∈ ls, '\n' ∉ l)
+    (hf : ∀ l ∈ ls, frameLine l = false) : crashSearchV .framed .javac (unlines ls) = false := by
+  rw [javac_repaired_crash_exact ls h]; exact framePairs_false_of_noFrame ls hf
+
+/-- … or, as before, no `java.lang` anywhere -/
+theorem javac_repaired_no_crash_of_no_marker (ls : List (List Char)) (h : ∀ l ∈ ls, '\n' ∉ l)
+    (hm : ∀ l ∈ ls, hasInfix "java.lang".toList l = false) :
+    crashSearchV .framed .javac (unlines ls) = false := by
+  rw [javac_repaired_crash_exact ls h]; exact framePairs_false_of_noMarker ls hm
+
+/-- `crash_iff` for javac with the repaired scanner, stated with the variant explicit (it does
+not depend on which tree is checked): items whose lines are newline-free and not frame lines —
+they may quote `java.lang` — are never a crash; with a trace appended they always are. -/
+theorem crash_iff_javac_repaired (fs : List (List Char)) (ls : List (List Char)) (ot : Option Trace)
+    (hnl : ∀ l ∈ ls, '\n' ∉ l) (hf : ∀ l ∈ ls, frameLine l = false)
+    (ht : ∀ t ∈ ot, crashSearchV .framed .javac (unlines t.lines) = true) :
+    (analyzeV .framed .javac fs (unlines ls ++ renderTrace ot)).crash = true ↔ ot ≠ none := by
+  cases ot with
+  | some t =>
+    have h1 : crashSearchV .framed .javac (unlines ls ++ renderTrace (some t)) = true :=
+      crashSearchV_mono _ _ _ _ (ht t rfl)
+    simp [analyzeV, h1]
+  | none =>
+    have h1 : crashSearchV .framed .javac (unlines ls ++ renderTrace none) = false := by
+      simp only [renderTrace, List.append_nil]
+      exact javac_repaired_no_crash_of_no_frame ls hnl hf
+    simp [analyzeV, h1]
+
 /-- and a crash carries no per-file verdicts -/
 theorem crash_no_failed (c : Compiler) (fs : List (List Char)) (out : List Char)
     (h : (analyze c fs out).crash = true) : (analyze c fs out).failed = [] := by
@@ -222,8 +284,8 @@ def batch_independent_scalac : Prop :=
 
 theorem batch_independent_scalac_counterexample : ¬ batch_independent_scalac := by
   intro h
-  have := h [.error "a/p.scala".toList "3".toList "1".toList [] 0 ["3 |x".toList]] [.note "foo".toList]
-    (by decide +kernel) (by decide +kernel) "a/p.scala".toList
+  have := h [.error (chars! "a/p.scala") (chars! "3") (chars! "1") [] 0 [(chars! "3 |x")]] [.note (chars! "foo")]
+    (by decide +kernel) (by decide +kernel) (chars! "a/p.scala")
   revert this
   decide +kernel
 
@@ -251,53 +313,70 @@ theorem tool_paths_wellformed (c : Compiler) (tmp pkg : List Char) (h : ToolName
 /-! ## the hypotheses are needed: what happens outside the grammar (replayed on the real code
 by the corpus of `harness/check_C14.py`) -/
 
-/-- a diagnostic that quotes a qualified `java.lang` name turns the batch into a "crash" -/
+/-- with the pattern AS FOUND (`javaCrashPattern_asis`) a diagnostic that quotes a qualified
+`java.lang` name turns the batch into a "crash" -/
 theorem javac_quoted_java_lang_counterexample :
-    analyze .javac []
-      "/tmp/tmpab12cd_9/src/alpha/Main.java:3: error: java.lang.Object cannot be converted to T\n".toList
+    analyzeV .asis .javac []
+      (chars! "/tmp/tmpab12cd_9/src/alpha/Main.java:3: error: java.lang.Object cannot be converted to T\n")
+      = ⟨true, []⟩ := by decide +kernel
+
+/-- the repaired scanner does not fire on that witness: the diagnostic is attributed -/
+theorem javac_quoted_java_lang_repaired :
+    analyzeV .framed .javac []
+      (chars! "/tmp/tmpab12cd_9/src/alpha/Main.java:3: error: java.lang.Object cannot be converted to T\n")
+      = ⟨false, [((chars! "/tmp/tmpab12cd_9/src/alpha/Main.java"),
+          [(chars! "3: error: java.lang.Object cannot be converted to T")])]⟩ := by decide +kernel
+
+/-- the clause that is left is needed: javac quotes source lines indented with blanks, so a quoted
+line that begins with the identifier `at` directly under a message naming `java.lang` still looks
+like a stack frame to the repaired pattern. (Theoretical: `at` is not an entry of
+`src/resources/words`, so the tool never generates that identifier.) -/
+theorem javac_repaired_at_identifier_counterexample :
+    analyzeV .framed .javac []
+      (chars! "a/Main.java:3: error: java.lang.Object cannot be converted to T\n    at = o;\n")
       = ⟨true, []⟩ := by decide +kernel
 
 /-- the last error of an output without final newline is dropped -/
 theorem javac_no_final_newline_counterexample :
-    analyze .javac [] "/tmp/tmpab12cd_9/src/alpha/Main.java:3: error: boom".toList = ⟨false, []⟩ := by
+    analyze .javac [] (chars! "/tmp/tmpab12cd_9/src/alpha/Main.java:3: error: boom") = ⟨false, []⟩ := by
   decide +kernel
 
 /-- a directory name with `-` truncates the key -/
 theorem javac_dash_in_directory_counterexample :
-    analyze .javac [] "/tmp/my-dir/src/alpha/Main.java:3: error: boom\n".toList
-      = ⟨false, [("dir/src/alpha/Main.java".toList, ["3: error: boom".toList])]⟩ := by
+    analyze .javac [] (chars! "/tmp/my-dir/src/alpha/Main.java:3: error: boom\n")
+      = ⟨false, [((chars! "dir/src/alpha/Main.java"), [(chars! "3: error: boom")])]⟩ := by
   decide +kernel
 
 /-! ## non-vacuity: a three-file batch -/
 
-def fileA : List Char := toolPath .javac "ab12cd_9".toList "alpha".toList
-def fileB : List Char := toolPath .javac "ab12cd_9".toList "beta".toList
-def fileC : List Char := toolPath .javac "ab12cd_9".toList "gamma".toList
+def fileA : List Char := toolPath .javac (chars! "ab12cd_9") (chars! "alpha")
+def fileB : List Char := toolPath .javac (chars! "ab12cd_9") (chars! "beta")
+def fileC : List Char := toolPath .javac (chars! "ab12cd_9") (chars! "gamma")
 
 def batch3 : List Item :=
-  [ .error fileA "3".toList [] "incompatible types".toList 0 ["  Integer x = \"a\";".toList, "     ^".toList],
-    .warning fileB "7".toList [] "[unchecked] cast".toList 0 ["  T y = (T) o;".toList],
-    .error fileC "12".toList [] "cannot find symbol".toList 0 ["  symbol: variable foo".toList],
-    .error fileA "9".toList [] "missing return".toList 0 [],
-    .note "Note: Some input files use unchecked operations.".toList,
-    .summary "3".toList ]
+  [ .error fileA (chars! "3") [] (chars! "incompatible types") 0 [(chars! "  Integer x = \"a\";"), (chars! "     ^")],
+    .warning fileB (chars! "7") [] (chars! "[unchecked] cast") 0 [(chars! "  T y = (T) o;")],
+    .error fileC (chars! "12") [] (chars! "cannot find symbol") 0 [(chars! "  symbol: variable foo")],
+    .error fileA (chars! "9") [] (chars! "missing return") 0 [],
+    .note (chars! "Note: Some input files use unchecked operations."),
+    .summary (chars! "3") ]
 
 theorem batch3_wf : ∀ i ∈ batch3, WFItem .javac i := by decide +kernel
 
-example : ToolNames "ab12cd_9".toList "alpha".toList := by
+example : ToolNames (chars! "ab12cd_9") (chars! "alpha") := by
   refine ⟨?_, ?_, ?_, ?_⟩ <;> decide +kernel
 
 /-- the three-file batch: `alpha` (two errors) and `gamma` are reported, `beta` (a warning only)
 is not -/
 theorem batch3_result :
     analyze .javac [] (render .javac batch3)
-      = ⟨false, [(fileA, ["3: error: incompatible types".toList, "9: error: missing return".toList]),
-                 (fileC, ["12: error: cannot find symbol".toList])]⟩ := by
+      = ⟨false, [(fileA, [(chars! "3: error: incompatible types"), (chars! "9: error: missing return")]),
+                 (fileC, [(chars! "12: error: cannot find symbol")])]⟩ := by
   rw [analyze_render_javac batch3 batch3_wf]
   decide +kernel
 
-example : WFTrace .javac ⟨"java.lang.AssertionError: boom".toList,
-    ["\tat jdk.compiler/com.sun.tools.javac.comp.Attr.visitApply(Attr.java:2000)".toList]⟩ := by
+example : WFTrace .javac ⟨(chars! "java.lang.AssertionError: boom"),
+    [(chars! "\tat jdk.compiler/com.sun.tools.javac.comp.Attr.visitApply(Attr.java:2000)")]⟩ := by
   unfold WFTrace; decide +kernel
 
 -- END theorems
